@@ -236,6 +236,112 @@ func c11(c *an.Ctx) {
 		}
 	})
 
+	c.Check("R-BOOL", "applyCursorsToAllEdges decision table: the list is cut after the after-cursor / before the before-cursor exactly when that cursor is given and found; elemsBefore iff the after-cursor was found at a position other than the first, elemsAfter iff the before-cursor was found at a position other than the last", 2, func(o *an.O) {
+		fn, paramOf, resultOf := cursorRoles(c)
+		// the index searched for each cursor
+		idxOf := map[string]ssa.Value{}
+		for role, k := range paramOf {
+			for _, call := range an.Calls(fn, an.Mod(sbp, "", "getCursorIndex")) {
+				if ld, ok := an.CallOf(call).Args[1].(*ssa.UnOp); ok && ld.X == ssa.Value(fn.Params[k]) {
+					idxOf[role] = call.(ssa.Value)
+					o.Site(call)
+				}
+			}
+		}
+		an.Need(idxOf["after"] != nil && idxOf["before"] != nil, "getCursorIndex calls for both cursors")
+		var lowCut, highCut ssa.Instruction
+		an.Instrs(fn, func(i ssa.Instruction) {
+			if sl, ok := i.(*ssa.Slice); ok {
+				if sl.Low != nil && sl.High == nil {
+					lowCut = i
+				}
+				if sl.High != nil && sl.Low == nil {
+					highCut = i
+				}
+			}
+		})
+		an.Need(lowCut != nil && highCut != nil, "the two cuts of applyCursorsToAllEdges")
+		nAtoms := 0
+		for mask := 0; mask < 64; mask++ {
+			aGiven, aFound, aFirst := mask&1 != 0, mask&2 != 0, mask&4 != 0
+			bGiven, bFound, bLast := mask&8 != 0, mask&16 != 0, mask&32 != 0
+			sim := &an.BoolSim{Fn: fn, Atom: func(v ssa.Value) (bool, bool) {
+				bo, ok := v.(*ssa.BinOp)
+				if !ok || (bo.Op != token.EQL && bo.Op != token.NEQ) {
+					return false, false
+				}
+				eq := bo.Op == token.EQL
+				for _, pr := range [][2]ssa.Value{{bo.X, bo.Y}, {bo.Y, bo.X}} {
+					x, y := pr[0], pr[1]
+					if isConstNil(y) {
+						if x == ssa.Value(fn.Params[paramOf["after"]]) {
+							nAtoms++
+							return aGiven != eq, true
+						}
+						if x == ssa.Value(fn.Params[paramOf["before"]]) {
+							nAtoms++
+							return bGiven != eq, true
+						}
+					}
+					for _, role := range []string{"after", "before"} {
+						if x != idxOf[role] {
+							continue
+						}
+						found, first, last := aFound, aFirst, false
+						if role == "before" {
+							found, first, last = bFound, false, bLast
+						}
+						if n, ok := an.ConstInt(y); ok {
+							switch n {
+							case -1:
+								nAtoms++
+								return (!found) == eq, true
+							case 0:
+								if role == "after" {
+									nAtoms++
+									return first == eq, true
+								}
+							}
+						}
+						if sub, ok := y.(*ssa.BinOp); ok && sub.Op == token.SUB && role == "before" {
+							if one, ok := an.ConstInt(sub.Y); ok && one == 1 {
+								nAtoms++
+								return last == eq, true
+							}
+						}
+					}
+				}
+				return false, false
+			}}
+			reached := sim.Run()
+			wantLow := aGiven && aFound
+			wantHigh := bGiven && bFound
+			if reached[lowCut.Block()] != wantLow {
+				o.FailAt(lowCut, "with the after cursor given=%v found=%v the list is cut after it: %v (expected %v)", aGiven, aFound, reached[lowCut.Block()], wantLow)
+				return
+			}
+			if reached[highCut.Block()] != wantHigh {
+				o.FailAt(highCut, "with the before cursor given=%v found=%v the list is cut before it: %v (expected %v)", bGiven, bFound, reached[highCut.Block()], wantHigh)
+				return
+			}
+			wantBefore := aGiven && aFound && !aFirst
+			wantAfter := bGiven && bFound && !bLast
+			gotBefore := sim.ReturnedBools(resultOf["elemsBefore"])
+			gotAfter := sim.ReturnedBools(resultOf["elemsAfter"])
+			if len(gotBefore) != 1 || !gotBefore[fmt.Sprint(wantBefore)] {
+				o.Fail(p.Pos(fn.Pos()), "elemsBefore is %v when the after cursor is given=%v found=%v at-first-position=%v (expected %v): hasPreviousPage would be wrong for that window", keysOf(gotBefore), aGiven, aFound, aFirst, wantBefore)
+				return
+			}
+			if len(gotAfter) != 1 || !gotAfter[fmt.Sprint(wantAfter)] {
+				o.Fail(p.Pos(fn.Pos()), "elemsAfter is %v when the before cursor is given=%v found=%v at-last-position=%v (expected %v): hasNextPage would be wrong for that window", keysOf(gotAfter), bGiven, bFound, bLast, wantAfter)
+				return
+			}
+		}
+		if nAtoms == 0 {
+			o.Fail(p.Pos(fn.Pos()), "applyCursorsToAllEdges tests neither the cursors nor the indices")
+		}
+	})
+
 	c.Check("R-GUARD", "paginateManually: Edges[:first] iff len > first, Edges[len-last:] iff len > last, flags set there; errors precede slicing; flags seeded from (before&&elemsAfter)/(after&&elemsBefore)", 5, func(o *an.O) {
 		fn := c.NeedFunc(sbp, "(*Connection).paginateManually")
 		cn := fn.Params[0].Name()
@@ -252,113 +358,7 @@ func c11(c *an.Ctx) {
 		// positions: the "after" cursor is the one whose index becomes the low bound of a cut,
 		// the "before" cursor the one whose index becomes the high bound; each boolean result is
 		// tied to the cursor under whose non-nil test it can become true.
-		callee := c.NeedFunc(sbp, "applyCursorsToAllEdges")
-		role := map[int]string{} // parameter index -> "after" / "before"
-		for k, pa := range callee.Params {
-			if _, isPtr := pa.Type().Underlying().(*types.Pointer); !isPtr {
-				continue
-			}
-			for _, call := range an.Calls(callee, an.Mod(sbp, "", "getCursorIndex")) {
-				ld, ok := an.CallOf(call).Args[1].(*ssa.UnOp)
-				if !ok || ld.X != ssa.Value(pa) {
-					continue
-				}
-				idx := call.(ssa.Value)
-				an.Instrs(callee, func(i ssa.Instruction) {
-					sl, ok := i.(*ssa.Slice)
-					if !ok {
-						return
-					}
-					uses := func(v ssa.Value) bool {
-						if v == nil {
-							return false
-						}
-						if v == idx {
-							return true
-						}
-						if bo, ok := v.(*ssa.BinOp); ok {
-							return bo.X == idx || bo.Y == idx
-						}
-						return false
-					}
-					if uses(sl.Low) {
-						role[k] = "after"
-					}
-					if uses(sl.High) {
-						role[k] = "before"
-					}
-				})
-			}
-		}
-		paramOf := map[string]int{}
-		for k, r := range role {
-			paramOf[r] = k
-		}
-		_, okA := paramOf["after"]
-		_, okB := paramOf["before"]
-		an.Need(okA && okB, "after / before cursor parameters of applyCursorsToAllEdges")
-		// boolean results tied to a cursor parameter
-		resultOf := map[string]int{} // "elemsBefore" (tied to the after cursor) / "elemsAfter" (tied to the before cursor)
-		for _, e := range an.Exits(callee, false) {
-			ret, ok := e.(*ssa.Return)
-			if !ok {
-				continue
-			}
-			for r := range ret.Results {
-				v := an.ResultAt(ret, r)
-				if bt, ok := v.Type().Underlying().(*types.Basic); !ok || bt.Kind() != types.Bool {
-					continue
-				}
-				tied := map[string]bool{}
-				var walk func(v ssa.Value, at *ssa.BasicBlock, seen map[ssa.Value]bool)
-				walk = func(v ssa.Value, at *ssa.BasicBlock, seen map[ssa.Value]bool) {
-					if seen[v] {
-						return
-					}
-					seen[v] = true
-					if ph, ok := v.(*ssa.Phi); ok {
-						for k, ev := range ph.Edges {
-							walk(ev, ph.Block().Preds[k], seen)
-						}
-						return
-					}
-					if cst, ok := v.(*ssa.Const); ok && cst.Value != nil && cst.Value.ExactString() == "false" {
-						return
-					}
-					blocks := []*ssa.BasicBlock{at}
-					if in, ok := v.(ssa.Instruction); ok {
-						blocks = append(blocks, in.Block())
-					}
-					for _, b := range blocks {
-						for _, g := range append(an.GuardsOf(b), an.Guard{}) {
-							if g.Cond == nil {
-								continue
-							}
-							bo, ok := g.Cond.(*ssa.BinOp)
-							if !ok || !isConstNil(bo.Y) {
-								continue
-							}
-							nonNil := (bo.Op == token.NEQ) == g.Polarity
-							for rl, k := range paramOf {
-								if bo.X == ssa.Value(callee.Params[k]) && nonNil {
-									tied[rl] = true
-								}
-							}
-						}
-					}
-				}
-				walk(v, e.Block(), map[ssa.Value]bool{})
-				switch {
-				case tied["after"] && !tied["before"]:
-					resultOf["elemsBefore"] = r
-				case tied["before"] && !tied["after"]:
-					resultOf["elemsAfter"] = r
-				}
-			}
-		}
-		_, okEB := resultOf["elemsBefore"]
-		_, okEA := resultOf["elemsAfter"]
-		an.Need(okEB && okEA, "the two boolean results of applyCursorsToAllEdges")
+		callee, paramOf, resultOf := cursorRoles(c)
 		edgesArg := -1
 		for k, pa := range callee.Params {
 			if _, isSl := pa.Type().Underlying().(*types.Slice); isSl {
@@ -1047,4 +1047,118 @@ func checkSortComparators(c *an.Ctx, o *an.O, accessor map[string]string) {
 	if n < 4 {
 		o.Fail("graphql/schemabuilder/pagination.go", "found the comparators of %d sorts entries, expected 4", n)
 	}
+}
+
+// cursorRoles infers, from applyCursorsToAllEdges itself, which parameter is
+// the "after" cursor (its index becomes the low bound of a cut) and which the
+// "before" cursor (high bound), and which boolean result is tied to which.
+func cursorRoles(c *an.Ctx) (*ssa.Function, map[string]int, map[string]int) {
+	callee := c.NeedFunc(sbp, "applyCursorsToAllEdges")
+	role := map[int]string{} // parameter index -> "after" / "before"
+	for k, pa := range callee.Params {
+		if _, isPtr := pa.Type().Underlying().(*types.Pointer); !isPtr {
+			continue
+		}
+		for _, call := range an.Calls(callee, an.Mod(sbp, "", "getCursorIndex")) {
+			ld, ok := an.CallOf(call).Args[1].(*ssa.UnOp)
+			if !ok || ld.X != ssa.Value(pa) {
+				continue
+			}
+			idx := call.(ssa.Value)
+			an.Instrs(callee, func(i ssa.Instruction) {
+				sl, ok := i.(*ssa.Slice)
+				if !ok {
+					return
+				}
+				uses := func(v ssa.Value) bool {
+					if v == nil {
+						return false
+					}
+					if v == idx {
+						return true
+					}
+					if bo, ok := v.(*ssa.BinOp); ok {
+						return bo.X == idx || bo.Y == idx
+					}
+					return false
+				}
+				if uses(sl.Low) {
+					role[k] = "after"
+				}
+				if uses(sl.High) {
+					role[k] = "before"
+				}
+			})
+		}
+	}
+	paramOf := map[string]int{}
+	for k, r := range role {
+		paramOf[r] = k
+	}
+	_, okA := paramOf["after"]
+	_, okB := paramOf["before"]
+	an.Need(okA && okB, "after / before cursor parameters of applyCursorsToAllEdges")
+	// boolean results tied to a cursor parameter
+	resultOf := map[string]int{} // "elemsBefore" (tied to the after cursor) / "elemsAfter" (tied to the before cursor)
+	for _, e := range an.Exits(callee, false) {
+		ret, ok := e.(*ssa.Return)
+		if !ok {
+			continue
+		}
+		for r := range ret.Results {
+			v := an.ResultAt(ret, r)
+			if bt, ok := v.Type().Underlying().(*types.Basic); !ok || bt.Kind() != types.Bool {
+				continue
+			}
+			tied := map[string]bool{}
+			var walk func(v ssa.Value, at *ssa.BasicBlock, seen map[ssa.Value]bool)
+			walk = func(v ssa.Value, at *ssa.BasicBlock, seen map[ssa.Value]bool) {
+				if seen[v] {
+					return
+				}
+				seen[v] = true
+				if ph, ok := v.(*ssa.Phi); ok {
+					for k, ev := range ph.Edges {
+						walk(ev, ph.Block().Preds[k], seen)
+					}
+					return
+				}
+				if cst, ok := v.(*ssa.Const); ok && cst.Value != nil && cst.Value.ExactString() == "false" {
+					return
+				}
+				blocks := []*ssa.BasicBlock{at}
+				if in, ok := v.(ssa.Instruction); ok {
+					blocks = append(blocks, in.Block())
+				}
+				for _, b := range blocks {
+					for _, g := range append(an.GuardsOf(b), an.Guard{}) {
+						if g.Cond == nil {
+							continue
+						}
+						bo, ok := g.Cond.(*ssa.BinOp)
+						if !ok || !isConstNil(bo.Y) {
+							continue
+						}
+						nonNil := (bo.Op == token.NEQ) == g.Polarity
+						for rl, k := range paramOf {
+							if bo.X == ssa.Value(callee.Params[k]) && nonNil {
+								tied[rl] = true
+							}
+						}
+					}
+				}
+			}
+			walk(v, e.Block(), map[ssa.Value]bool{})
+			switch {
+			case tied["after"] && !tied["before"]:
+				resultOf["elemsBefore"] = r
+			case tied["before"] && !tied["after"]:
+				resultOf["elemsAfter"] = r
+			}
+		}
+	}
+	_, okEB := resultOf["elemsBefore"]
+	_, okEA := resultOf["elemsAfter"]
+	an.Need(okEB && okEA, "the two boolean results of applyCursorsToAllEdges")
+	return callee, paramOf, resultOf
 }
